@@ -477,6 +477,17 @@ def direct_oracle(ctx, env, full, nperm, only=None):
                 ctx.count("oracle:tag-size-sweep")
                 if not check_state(ctx, env, f, kind, cur2, ["delete", "len=%d" % n], names[:1] + names[-1:], 1, data):
                     break
+        # a tag larger than every fixed search window (1 MiB sync search, 1 MiB copy buffer): "tags of any size"
+        if base is not None:
+            for n in (1024 * 1024 + 4000, 2 * 1024 * 1024 + 77) if full else (1024 * 1024 + 4000,):
+                try:
+                    cur3 = apply_step(K, kind, base, "len=%d" % n)
+                except Exception as e:
+                    ctx.count("oracle-step-failed:%s" % type(e).__name__)
+                    break
+                ctx.count("oracle:tag-above-1MiB")
+                if not check_state(ctx, env, f, kind, cur3, ["delete", "len=%d" % n], names[:1] + names[-1:], 1, data):
+                    break
         # once through a real path on disk (File given a file name)
         if hist:
             tmp = tempfile.mkdtemp(prefix="c18_")
